@@ -50,7 +50,9 @@ pub fn gen_case(rng: &mut Rng, flavour: Flavour, thorough: bool) -> ModelCase {
     profile,
     positions: rng.chance(1, 2),
     ids: 2 + rng.usize(5),
-    transparent: false,
+    // legal-but-unusual I/O behaviour (short writes, EINTR) in a third of the
+    // FsStorage runs: it must change nothing
+    transparent: storage == StorageKind::Fs && rng.chance(1, 3),
   };
   let len = if rng.chance(4, 5) {
     2 + rng.usize(12)
@@ -298,6 +300,11 @@ pub fn run_case(case: &ModelCase, wroot: &Path, flavour: Flavour, stats: &mut St
   let cfg = &case.cfg;
   let fs = if cfg.storage == StorageKind::Fs {
     let fs = SimFs::new(wroot);
+    fs.with(|c| c.record = false);
+    if cfg.transparent {
+      let shape: String = case.ops.iter().map(|o| o.kind()).collect::<Vec<_>>().join(",");
+      fs.with(|c| c.transparent = Some(Rng::new(crate::rng::hash_bytes(21, shape.as_bytes()))));
+    }
     verif::fs::mount(wroot, Arc::new(fs.clone()));
     Some(fs)
   } else {
@@ -376,7 +383,7 @@ pub fn run_case(case: &ModelCase, wroot: &Path, flavour: Flavour, stats: &mut St
       escapes_seen = 0;
       relocated = true;
       root = newroot;
-      out.trace.push(format!("{} relocate({}) -> {}", step, original, root.display()));
+      out.trace.push(format!("{} relocate({}) -> {}", step, original, root.file_name().map(|n| n.to_string_lossy().to_string()).unwrap_or_default()));
       match Session::open(cfg, &root, Some(fs.clone())) {
         Ok(s) => session = s,
         Err(o) => violate!(
@@ -645,6 +652,11 @@ pub fn run_case(case: &ModelCase, wroot: &Path, flavour: Flavour, stats: &mut St
         }
       }
     }
+  }
+  if let Some(fs) = &fs {
+    let t = fs.with(|c| c.stats.clone());
+    stats.add("fault.short_write", t.short_write);
+    stats.add("fault.eintr", t.eintr);
   }
   // fingerprint of the explored history shape
   let shape: String = case.ops.iter().map(|o| o.kind()).collect::<Vec<_>>().join(",");
